@@ -453,6 +453,31 @@ def pool_for(qual, cls):
     return fam, out
 
 
+def build_geometry_variants(census):
+    """Same parameters, other geometry: a cache keyed on gamma but not on the geometry needs exactly this pair."""
+    n = 0
+    for fam in list(FAMILIES.values()):
+        if fam.internal or fam.name == "nohblackbox":
+            continue
+        q = "exactpack.solvers." + fam.classes[0]
+        cls = census.get(q)
+        if cls is None or "geometry" not in getattr(cls, "parameters", {}):
+            continue
+        base = dict(fam.pool[0].kwargs)
+        g0 = base.get("geometry", getattr(cls, "geometry", None))
+        have = {tuple(sorted((k, repr(v)) for k, v in ps.kwargs.items())) for ps in fam.pool}
+        for g in (1, 2, 3):
+            if g == g0:
+                continue
+            kw = dict(base, geometry=g)
+            sig = tuple(sorted((k, repr(v)) for k, v in kw.items()))
+            if sig in have:
+                continue
+            fam.pool.append(PSet(kw, fam.pool[0].pts, fam.pool[0].times, note="auto:geometry"))
+            n += 1
+    return n
+
+
 def build_auto(path):
     """Append the committed one-at-a-time parameter variants (auto_pool.json) to the family pools."""
     import json
